@@ -905,3 +905,19 @@ Definition season_stmt : Prop :=
 
 Lemma season_stmt_lemma : season_stmt.
 Proof. exact (conj season_lemma (conj season_day_lemma season_reset_needed)). Qed.
+
+(* ---------------------------------------------------------------- *)
+(* 14. what leaves the soil through the surface: EVA = ETA - (rain + irrigation), FLUSS0 = -EVA; with a
+   non-negative rain amount the evaporative surface flux is at most the actual evaporation ETA (a negative
+   "rain" - a missing-value marker that reached Evatra - would be evaporated on top of it)            *)
+Lemma surface_flux_lemma (x : evatra_in (T:=R)) :
+  let o := evatra_struct x in
+  eo_eva o = eo_eta o - ei_regen x /\ eo_fluss0 o = - eo_eva o /\
+  (0 <= ei_regen x -> - eo_fluss0 o <= eo_eta o).
+Proof.
+  cbv zeta. unfold evatra_struct. rsimp.
+  destruct (split_of _ _ _) as [[evmax tramax] etcp]. destruct (ei_crop x).
+  - destruct (lured_of _ _ _ _) as [ld lured]. destruct (uptake_struct _ _ _ _) as [[[[tp0 tp] tpakt] gwauf] weff].
+    cbn [eo_eva eo_eta eo_fluss0]. repeat split; try lra.
+  - cbn [eo_eva eo_eta eo_fluss0]. repeat split; try lra.
+Qed.
